@@ -73,7 +73,15 @@ def gen_muts(rng, doc, n):
 def apply_muts(doc, muts):
     """Applies the invalidations; returns (applied names, values_expectations)."""
     import odml
+    import uuid
     applied, vexp = [], []
+    counter = [0]
+
+    def oid():
+        # helper objects get reproducible ids (the same document must be rebuilt bit-identically in
+        # another process for C19's cross-process comparison)
+        counter[0] += 1
+        return str(uuid.uuid5(uuid.NAMESPACE_DNS, "verif-helper-%s-%d" % (doc.id, counter[0])))
     for m in muts:
         secs, props = nodes_of(doc)
         name = m[0]
@@ -115,7 +123,7 @@ def apply_muts(doc, muts):
                 sib = [q for q in par.properties if q is not p]
                 if mode in ("existing-match", "existing-text-match", "existing-mismatch", "value-none"):
                     if not sib:
-                        t = odml.Property("dep_target", values=["v1", "v2"], parent=par)
+                        t = odml.Property("dep_target", values=["v1", "v2"], parent=par, oid=oid())
                     else:
                         t = sib[0]
                     p.dependency = t.name
@@ -132,14 +140,14 @@ def apply_muts(doc, muts):
                     p.dependency_value = "x"
                 elif mode == "subsection-name":
                     if not len(par.sections):
-                        odml.Section("dep_sub", "t", parent=par)
+                        odml.Section("dep_sub", "t", parent=par, oid=oid())
                     p.dependency = par.sections[0].name
                     p.dependency_value = "x"
                 elif mode in ("int-target", "empty-target", "multi-target"):
                     vals = {"int-target": [1, 2], "empty-target": None, "multi-target": ["a", "b", "c"]}[mode]
                     nm = "dep_" + mode
                     if nm not in par.properties:
-                        odml.Property(nm, values=vals, parent=par)
+                        odml.Property(nm, values=vals, parent=par, oid=oid())
                     p.dependency = nm
                     p.dependency_value = {"int-target": 2, "empty-target": "a", "multi-target": "c"}[mode]
                 elif mode == "self":
